@@ -1262,7 +1262,9 @@ class DigitalWaveform(Generic[TDigitalState]):
         new_capacity = self._start_index + self._sample_count + amount
         if new_capacity > self.capacity:
             # Don't grow a buffer that the following copy cannot write to.
-            if not self._data.flags.writeable:
+            if not self._data.flags.writeable or (
+                self._data_1d is not None and not self._data_1d.flags.writeable
+            ):
                 raise ValueError("assignment destination is read-only")
             self.capacity = new_capacity
 
@@ -1334,7 +1336,9 @@ class DigitalWaveform(Generic[TDigitalState]):
         if copy:
             if sample_count > len(self._data):
                 # Don't grow a buffer that the following copy cannot write to.
-                if not self._data.flags.writeable:
+                if not self._data.flags.writeable or (
+                    self._data_1d is not None and not self._data_1d.flags.writeable
+                ):
                     raise ValueError("assignment destination is read-only")
                 self.capacity = sample_count
             self._data[0:sample_count] = array[start_index : start_index + sample_count]
